@@ -1,4 +1,5 @@
 import UtilModel.Model.GoTime
+import UtilModel.Gen.Facts
 /-!
 # Model of package `date` (after fixes F3, F4)
 -/
@@ -74,8 +75,19 @@ def format (buf : Bytes) (d : Date) (basic : Bool) : Bytes :=
   if basic then buf ++ padDecInt 4 y ++ padDec 2 m ++ padDec 2 dd
   else buf ++ padDecInt 4 y ++ [45] ++ padDec 2 m ++ [45] ++ padDec 2 dd
 
-/-- `formatByVerb` -/
-def basicByVerb (verb : Nat) : Bool := verb == 98  -- 'b'
+/-- `f & FormatBasic != 0` -/
+def isBasic (f : Nat) : Bool := f &&& Gen.date_FormatBasic != 0
+
+/-- `formatByVerb`: the switch table extracted from the source -/
+def flagsByVerb (verb : Nat) : Nat :=
+  match Gen.date_verbs.find? (fun e => e.1 == verb) with
+  | some e => e.2.getD 0
+  | none => Gen.date_verbDefault.getD 0
+
+/-- `MarshalText`, `String` (both `Formatter(nil, d, 0)`) and `Format(f, verb)` -/
+def marshalText (d : Date) : Bytes := format [] d (isBasic 0)
+def toString (d : Date) : Bytes := format [] d (isBasic 0)
+def formatVerb (d : Date) (verb : Nat) : Bytes := format [] d (isBasic (flagsByVerb verb))
 
 /-! ## parser -/
 
@@ -83,20 +95,28 @@ def basicByVerb (verb : Nat) : Bool := verb == 98  -- 'b'
 def validDate (y : Int) (m d : Nat) : Bool :=
   decide (1 ≤ m) && decide (m ≤ 12) && decide (1 ≤ d) && decide (d ≤ daysIn y m)
 
-/-- language of `^([0-9]{4,9})-?(1[0-2]|0[0-9])-?(3[01]|[0-2][0-9])$`, decomposed from the right;
-    returns the three captured groups -/
+/-- an optional `-` -/
+def stripDash : Bytes → Bytes
+  | 45 :: t => t
+  | t => t
+
+/-- `(1[0-2]|0[0-9])` on the two month bytes -/
+def monthPat (m1 m2 : Nat) : Bool :=
+  (m1 == 49 && (m2 == 48 || m2 == 49 || m2 == 50)) || (m1 == 48 && isDigit m2)
+
+/-- `(3[01]|[0-2][0-9])` on the two day bytes -/
+def dayPat (d1 d2 : Nat) : Bool :=
+  (d1 == 51 && (d2 == 48 || d2 == 49)) || ((d1 == 48 || d1 == 49 || d1 == 50) && isDigit d2)
+
+/-- language of `^([0-9]{4,9})-?(1[0-2]|0[0-9])-?(3[01]|[0-2][0-9])$`, decomposed from the right
+    (the decomposition is unique: each `-?` is followed by a digit); returns the three groups -/
 def shape (s : Bytes) : Option (Bytes × Bytes × Bytes) :=
   match s.reverse with
   | d2 :: d1 :: r1 =>
-    let r2 := match r1 with | 45 :: t => t | t => t
-    match r2 with
+    match stripDash r1 with
     | m2 :: m1 :: r3 =>
-      let r4 := match r3 with | 45 :: t => t | t => t
-      let ys := r4.reverse
-      if allDigits ys && decide (4 ≤ ys.length) && decide (ys.length ≤ 9)
-         && allDigits [m1, m2] && allDigits [d1, d2]
-         && (m1 == 49 && (m2 == 48 || m2 == 49 || m2 == 50) || m1 == 48)
-         && (d1 == 51 && (d2 == 48 || d2 == 49) || d1 == 48 || d1 == 49 || d1 == 50)
+      let ys := (stripDash r3).reverse
+      if allDigits ys && decide (4 ≤ ys.length) && decide (ys.length ≤ 9) && monthPat m1 m2 && dayPat d1 d2
       then some (ys, [m1, m2], [d1, d2]) else none
     | _ => none
   | _ => none
@@ -120,6 +140,12 @@ def parse (maxLen : Nat) (disableBasic : Bool) (s : Bytes) : Outcome Date :=
         else finish
       | _, _, _ => .panic
 
+/-- `r & RuleDisableBasic != 0` -/
+def ruleDisableBasic (r : Nat) : Bool := r &&& Gen.date_RuleDisableBasic != 0
+
+/-- `UnmarshalText(data)` = `Parser(data, 0)`; returns the new receiver value -/
+def unmarshalText (maxLen : Nat) (s : Bytes) : Outcome Date := parse maxLen (ruleDisableBasic 0) s
+
 /-! ## binary -/
 
 def byteOf (x : Int) : Nat := (x % 256).toNat
@@ -127,7 +153,7 @@ def byteOf (x : Int) : Nat := (x % 256).toNat
 /-- `MarshalBinary` -/
 def marshalBinary (d : Date) : Bytes :=
   let y := wrap32 (d.year + 1)
-  [1, byteOf (y / 16777216), byteOf (y / 65536), byteOf (y / 256), byteOf y,
+  [Gen.date_version, byteOf (y / 16777216), byteOf (y / 65536), byteOf (y / 256), byteOf y,
    (d.month + 1) % 256, (d.day + 1) % 256]
 
 /-- `UnmarshalBinary` (F4): returns the new receiver value -/
@@ -135,7 +161,7 @@ def unmarshalBinary (bs : Bytes) : Outcome Date :=
   match bs with
   | [] => .err .invalidLength
   | v :: _ =>
-    if v ≠ 1 then .err .unsupportedVersion
+    if v ≠ Gen.date_version then .err .unsupportedVersion
     else match bs with
       | [_, b1, b2, b3, b4, m, dd] =>
         let y := wrap32 (b1 * 16777216 + b2 * 65536 + b3 * 256 + b4 : Nat)
